@@ -1,35 +1,83 @@
 // C07: the second copy of the integer <-> text routines in igris/container/std_portable.h
-// (an amalgamated single header, namespace igris, NOT anchored by the property and not
-// repaired by the fix: commits of numconvert.c / hexascii.h).  Own translation unit: the
-// header redefines the macros of igris/util/access.h and the igris_* names as static inlines.
-#include <igris/container/std_portable.h>
+// (an amalgamated single header, namespace igris, NOT anchored by the property; repaired in round 3b with the
+// same five changes as numconvert.c / hexascii.h).  Own translation unit: the header redefines the macros of
+// igris/util/access.h and the igris_* names as static inlines.
+//
+// Round 3b (fragility): the copy is an internal detail of that header.  The calls below are UNQUALIFIED calls
+// from inside namespace igris: when the header carries its own igris::igris_i64toa ... they resolve to the copy;
+// when the header stops carrying one (regenerated to use numconvert.h, renamed, dropped) they resolve to the
+// global declarations of the anchored C routines below, the harness still builds, and the operations report the
+// tag `std_portable-twin-absent`.
+#include <stdint.h>
+extern "C"
+{
+    char *igris_i8toa(int8_t num, char *buf, uint8_t base);
+    char *igris_i16toa(int16_t num, char *buf, uint8_t base);
+    char *igris_i32toa(int32_t num, char *buf, uint8_t base);
+    char *igris_i64toa(int64_t num, char *buf, uint8_t base);
+    char *igris_u8toa(uint8_t num, char *buf, uint8_t base);
+    char *igris_u16toa(uint16_t num, char *buf, uint8_t base);
+    char *igris_u32toa(uint32_t num, char *buf, uint8_t base);
+    char *igris_u64toa(uint64_t num, char *buf, uint8_t base);
+    int8_t igris_atoi8(const char *buf, uint8_t base, char **end);
+    int16_t igris_atoi16(const char *buf, uint8_t base, char **end);
+    int32_t igris_atoi32(const char *buf, uint8_t base, char **end);
+    int64_t igris_atoi64(const char *buf, uint8_t base, char **end);
+    uint8_t igris_atou8(const char *buf, uint8_t base, char **end);
+    uint16_t igris_atou16(const char *buf, uint8_t base, char **end);
+    uint32_t igris_atou32(const char *buf, uint8_t base, char **end);
+    uint64_t igris_atou64(const char *buf, uint8_t base, char **end);
+    unsigned char c07_real_hex2half(char c); // harness/C07.cpp: hex2half of igris/util/hexascii.h
+}
+static inline uint8_t hex2half(char c) { return c07_real_hex2half(c); }
+typedef char *(*c07_i64toa_t)(int64_t, char *, uint8_t);
+static const c07_i64toa_t c07_global_i64toa = &igris_i64toa;
 
-extern "C" char *c07_twin_toa(int k, unsigned long long v, char *buf, unsigned char base)
+#if __has_include(<igris/container/std_portable.h>) // the header itself may go away
+#include <igris/container/std_portable.h>
+#else
+namespace igris {}
+#endif
+
+namespace igris
 {
-    switch (k)
+    namespace c07probe
     {
-    case 0: return igris::igris_i8toa((int8_t)v, buf, base);
-    case 1: return igris::igris_i16toa((int16_t)v, buf, base);
-    case 2: return igris::igris_i32toa((int32_t)v, buf, base);
-    case 3: return igris::igris_i64toa((int64_t)v, buf, base);
-    case 4: return igris::igris_u8toa((uint8_t)v, buf, base);
-    case 5: return igris::igris_u16toa((uint16_t)v, buf, base);
-    case 6: return igris::igris_u32toa((uint32_t)v, buf, base);
-    default: return igris::igris_u64toa((uint64_t)v, buf, base);
+        static char *toa(int k, unsigned long long v, char *buf, unsigned char base)
+        {
+            switch (k)
+            {
+            case 0: return igris_i8toa((int8_t)v, buf, base);
+            case 1: return igris_i16toa((int16_t)v, buf, base);
+            case 2: return igris_i32toa((int32_t)v, buf, base);
+            case 3: return igris_i64toa((int64_t)v, buf, base);
+            case 4: return igris_u8toa((uint8_t)v, buf, base);
+            case 5: return igris_u16toa((uint16_t)v, buf, base);
+            case 6: return igris_u32toa((uint32_t)v, buf, base);
+            default: return igris_u64toa((uint64_t)v, buf, base);
+            }
+        }
+        static unsigned long long ato(int k, const char *buf, unsigned char base, char **end)
+        {
+            switch (k)
+            {
+            case 0: return (uint8_t)igris_atoi8(buf, base, end);
+            case 1: return (uint16_t)igris_atoi16(buf, base, end);
+            case 2: return (uint32_t)igris_atoi32(buf, base, end);
+            case 3: return (uint64_t)igris_atoi64(buf, base, end);
+            case 4: return igris_atou8(buf, base, end);
+            case 5: return igris_atou16(buf, base, end);
+            case 6: return igris_atou32(buf, base, end);
+            default: return igris_atou64(buf, base, end);
+            }
+        }
+        static unsigned char h2h(char c) { return hex2half(c); }
+        // the copy is a static inline in namespace igris: its address differs from the C routine's
+        static int present() { c07_i64toa_t f = &igris_i64toa; return f != c07_global_i64toa; }
     }
 }
-extern "C" unsigned long long c07_twin_ato(int k, const char *buf, unsigned char base, char **end)
-{
-    switch (k)
-    {
-    case 0: return (uint8_t)igris::igris_atoi8(buf, base, end);
-    case 1: return (uint16_t)igris::igris_atoi16(buf, base, end);
-    case 2: return (uint32_t)igris::igris_atoi32(buf, base, end);
-    case 3: return (uint64_t)igris::igris_atoi64(buf, base, end);
-    case 4: return igris::igris_atou8(buf, base, end);
-    case 5: return igris::igris_atou16(buf, base, end);
-    case 6: return igris::igris_atou32(buf, base, end);
-    default: return igris::igris_atou64(buf, base, end);
-    }
-}
-extern "C" unsigned char c07_twin_hex2half(char c) { return igris::hex2half(c); }
+
+extern "C" char *c07_twin_toa(int k, unsigned long long v, char *buf, unsigned char base) { return igris::c07probe::toa(k, v, buf, base); }
+extern "C" unsigned long long c07_twin_ato(int k, const char *buf, unsigned char base, char **end) { return igris::c07probe::ato(k, buf, base, end); }
+extern "C" unsigned char c07_twin_hex2half(char c) { return igris::c07probe::h2h(c); }
+extern "C" int c07_twin_present(void) { return igris::c07probe::present(); }
